@@ -1,12 +1,7 @@
-(* LocateOwn.v — the C10 theorems about the CONTAINER'S OWN lookup (get_item g st / set_item g st = the accessors with
-   locate g (c_span st)), pointwise in the labels a key actually makes the container look up.
-
-   The generic theorems of LocateFacts.v take `locate_spec ls lc`, which quantifies over ALL labels.  For a NumPy-array span the
-   container's own lookup does NOT meet it (a tuple label is broadcast against a span of length 1 or 2: arr_tuple_label_aliases_refuted),
-   so there the generic hypothesis cannot be discharged.  Here: (1) an access depends on the lookup only through the labels of its key
-   (and the span's ends for open slices); (2) for every span with span_ok and every label with own_label_ok — for NumPy-array spans:
-   every label that is not a tuple, and every tuple label unless the span has length 1 or 2 — the own lookup answers as the spec demands;
-   (3) hence the end-to-end statements for get_item / set_item. *)
+(* LocateOwn.v — the C10 theorems about the CONTAINER'S OWN accessors get_item g st / set_item g st (= the accessors with the own
+   lookup locate g (c_span st)).  Since fix 35fe7e2 (a tuple label is compared as one label against a NumPy-array span) the own
+   lookup meets locate_spec for ALL labels on every span with span_ok (range step <> 0, NumPy-array span duplicate-free, pandas: get_loc
+   meets the spec) — locate_meets_spec — so the generic theorems of LocateFacts.v instantiate directly; no condition on the labels. *)
 From Coq Require Import ZArith List Bool String Lia.
 Import ListNotations.
 Require Import PyBase Generated Locate LocateFacts.
@@ -14,7 +9,7 @@ Open Scope Z_scope.
 Open Scope list_scope.
 Local Notation length := List.length.
 
-(* ---------- (1) an access uses the lookup only for the labels of its key ---------- *)
+(* an access uses the lookup only for the labels of its key (and the span's ends for open slices) *)
 Definition key_labels (sp : span) (k : key) : list label :=
   match k with
   | KLabel x => [x]
@@ -34,7 +29,6 @@ Proof.
            | |- context [lc ?z] => rewrite (H z) by (simpl; tauto)
            end; reflexivity.
 Qed.
-
 Theorem get_item_with_ext {V} (lc lc' : label -> outcome loc) (st : cstate V) name k :
   (forall x, In x (key_labels (c_span st) k) -> lc x = lc' x) ->
   get_item_with lc st name k = get_item_with lc' st name k.
@@ -52,167 +46,80 @@ Proof.
   - rewrite (resolve_slice_ext lc lc' (c_span st) a b s H). reflexivity.
 Qed.
 
-(* ---------- (2) the labels for which the own lookup of a NumPy-array span meets the spec ----------
-   every label that is not a tuple; a tuple label that is no element of the span unless the span has length 1 or 2 (there the
-   element-wise comparison broadcasts: the kept finding) *)
-Definition arr_label_ok (ls : list label) (x : label) : Prop :=
-  match x with
-  | LPair _ _ => length ls <> 1%nat /\ length ls <> 2%nat /\ ~ In x ls
-  | _ => True
-  end.
-Definition own_label_ok (sp : span) (x : label) : Prop := match sp with SArr ls => arr_label_ok ls x | _ => True end.
-
-Lemma arr_eq_pair_long ls a b : length ls <> 1%nat -> length ls <> 2%nat -> arr_eq ls (LPair a b) = None.
-Proof. destruct ls as [|y1 [|y2 [|y3 r]]]; simpl; intros H1 H2; try reflexivity; congruence. Qed.
-
 Section Own.
   Variable g : list label -> label -> outcome loc.
+  Context {V : Type}.
+  Variable st : cstate V.
+  Variable name : string.
+  Variable sr : series V.
+  Hypothesis Hok : span_ok g (c_span st).
+  Hypothesis Hvar : lookup name (c_vars st) = Some sr.
+  Hypothesis Hlen : length (s_data sr) = length (span_labels (c_span st)).
+  Let Hspec := locate_meets_spec g (c_span st) Hok.
 
-  Theorem locate_arr_spec_wide ls x :
-    NoDup ls -> arr_label_ok ls x ->
-    match pos x ls with
-    | Some p => locate g (SArr ls) x = Ret (LPos (Z.of_nat p) true)
-    | None => locate g (SArr ls) x = Raise KeyError
-    end.
+  Theorem own_label_get_exact x p :
+    pos x (span_labels (c_span st)) = Some p ->
+    exists v, nth_error (s_data sr) p = Some v /\ get_item g st name (KLabel x) = Ret (RScalar v).
+  Proof. exact (label_get_exact _ st name sr Hspec Hvar Hlen x p). Qed.
+  Theorem own_label_set_exact x p v :
+    pos x (span_labels (c_span st)) = Some p ->
+    set_item g st name (KLabel x) (OScalar v) = (set_data st name sr (upd p v (s_data sr)), Ret tt).
+  Proof. exact (label_set_exact _ st name sr Hspec Hvar Hlen x p v). Qed.
+  (* a label that is not in the span: KeyError, nothing read, nothing written — never another period *)
+  Theorem own_missing_label x w :
+    pos x (span_labels (c_span st)) = None ->
+    get_item g st name (KLabel x) = Raise KeyError /\ set_item g st name (KLabel x) w = (st, Raise KeyError).
   Proof.
-    intros ND Hok. destruct x; try (apply (locate_arr_spec g ls _ ND); exact I).
-    destruct Hok as [H1 [H2 H3]]. apply pos_None in H3. rewrite H3.
-    rewrite locate_SArr. unfold fallback. rewrite (arr_eq_pair_long ls a b H1 H2). reflexivity.
+    intros Hp. split; [exact (missing_label_get _ st name sr Hspec Hvar x Hp) | exact (missing_label_set _ st name Hspec x w Hp)].
   Qed.
-
-  Theorem locate_own_spec sp x :
-    span_ok g sp -> own_label_ok sp x ->
-    match pos x (span_labels sp) with
-    | Some p => exists fl, locate g sp x = Ret (LPos (Z.of_nat p) fl)
-    | None => locate g sp x = Raise KeyError
-    end.
+  Theorem own_slice_get_exact a b s pa pb :
+    NoDup (span_labels (c_span st)) ->
+    start_pos (span_labels (c_span st)) a = Some pa -> stop_pos (span_labels (c_span st)) b = Some pb -> 0 < step_of s ->
+    let L := py_slice_positions (length (s_data sr)) (Some (Z.of_nat pa)) (Some (Z.of_nat pb + 1)) (step_of s) in
+    get_item g st name (KSlice a b s) = Ret (RArr (gather (s_data sr) L))
+    /\ (forall q, In q L <-> exists i : nat, Z.of_nat q = Z.of_nat pa + Z.of_nat i * step_of s /\ (q <= pb)%nat)
+    /\ ((pb < pa)%nat -> L = []).
   Proof.
-    destruct sp as [ls|a s n|ls|ls]; simpl; intros Hs Hl.
-    - exact (locate_list_spec g ls x).
-    - exact (locate_range_spec g a s n Hs x).
-    - pose proof (locate_arr_spec_wide ls x Hs Hl) as H. destruct (pos x ls); [exists true|]; exact H.
-    - exact (locate_pandas_spec g ls Hs x).
+    intros ND Ha Hb Hs L.
+    destruct (slice_get_exact _ st name sr Hspec Hvar Hlen a b s pa pb ND Ha Hb Hs) as [H1 [_ [H3 [_ H5]]]].
+    split; [exact H1|]. split; [exact H3 | exact H5].
   Qed.
-
-  (* the bridge: a lookup meeting locate_spec for ALL labels that coincides with the own lookup on every admissible label *)
-  Definition spec_lookup (ls : list label) (x : label) : outcome loc :=
-    match pos x ls with Some p => Ret (LPos (Z.of_nat p) true) | None => Raise KeyError end.
-  Definition arr_okb (ls : list label) (x : label) : bool :=
-    match x with
-    | LPair _ _ => negb (Nat.eqb (length ls) 1) && negb (Nat.eqb (length ls) 2) && (match pos x ls with None => true | Some _ => false end)
-    | _ => true
-    end.
-  Lemma arr_okb_true ls x : arr_okb ls x = true <-> arr_label_ok ls x.
+  Theorem own_slice_set_exact a b s pa pb w d' :
+    NoDup (span_labels (c_span st)) ->
+    start_pos (span_labels (c_span st)) a = Some pa -> stop_pos (span_labels (c_span st)) b = Some pb -> 0 < step_of s ->
+    assign (s_data sr) (py_slice_positions (length (s_data sr)) (Some (Z.of_nat pa)) (Some (Z.of_nat pb + 1)) (step_of s)) w = Ret d' ->
+    set_item g st name (KSlice a b s) w = (set_data st name sr d', Ret tt).
+  Proof. exact (slice_set_exact _ st name sr Hspec Hvar Hlen a b s pa pb w d'). Qed.
+  Theorem own_missing_bound a b s w :
+    NoDup (span_labels (c_span st)) ->
+    bound_given_or_nonempty st a -> bound_given_or_nonempty st b ->
+    (exists x, a = Some x /\ pos x (span_labels (c_span st)) = None)
+    \/ (start_pos (span_labels (c_span st)) a <> None /\ exists y, b = Some y /\ pos y (span_labels (c_span st)) = None) ->
+    get_item g st name (KSlice a b s) = Raise KeyError /\ set_item g st name (KSlice a b s) w = (st, Raise KeyError).
   Proof.
-    destruct x; simpl; try tauto.
-    rewrite !andb_true_iff, !negb_true_iff, !Nat.eqb_neq. split.
-    - intros [[H1 H2] H3]. split; [exact H1|]. split; [exact H2|]. apply pos_None. destruct (pos (LPair a b) ls); [discriminate | reflexivity].
-    - intros [H1 [H2 H3]]. apply pos_None in H3. rewrite H3. tauto.
+    intros ND Ga Gb H. split.
+    - exact (missing_bound_get _ st name sr Hspec Hvar a b s ND Ga Gb H).
+    - exact (missing_bound_set _ st name Hspec a b s w ND Ga Gb H).
   Qed.
-  Definition bridge_lookup (sp : span) (x : label) : outcome loc :=
-    match sp with
-    | SArr ls => if arr_okb ls x then locate g sp x else spec_lookup ls x
-    | _ => locate g sp x
-    end.
-  Theorem bridge_spec sp : span_ok g sp -> locate_spec (span_labels sp) (bridge_lookup sp).
-  Proof.
-    intros Hs x. destruct sp as [ls|a s n|ls|ls]; simpl.
-    - exact (locate_list_spec g ls x).
-    - exact (locate_range_spec g a s n Hs x).
-    - destruct (arr_okb ls x) eqn:E.
-      + apply arr_okb_true in E. exact (locate_own_spec (SArr ls) x Hs E).
-      + unfold spec_lookup. destruct (pos x ls); [exists true|]; reflexivity.
-    - exact (locate_pandas_spec g ls Hs x).
-  Qed.
-  Lemma bridge_agrees sp x : own_label_ok sp x -> bridge_lookup sp x = locate g sp x.
-  Proof. destruct sp; simpl; try reflexivity. intros H. apply arr_okb_true in H. rewrite H. reflexivity. Qed.
-
-  (* ---------- (3) end to end, for the container's own accessors ---------- *)
-  Section Access.
-    Context {V : Type}.
-    Variable st : cstate V.
-    Variable name : string.
-    Variable sr : series V.
-    Let sp := c_span st.
-    Let ls := span_labels (c_span st).
-    Hypothesis Hok : span_ok g (c_span st).
-    Hypothesis Hvar : lookup name (c_vars st) = Some sr.
-    Hypothesis Hlen : length (s_data sr) = length (span_labels (c_span st)).
-
-    Lemma own_get_bridge k : (forall x, In x (key_labels (c_span st) k) -> own_label_ok (c_span st) x) ->
-      get_item g st name k = get_item_with (bridge_lookup (c_span st)) st name k.
-    Proof. intros H. unfold get_item. apply get_item_with_ext. intros x Hx. symmetry. apply bridge_agrees. exact (H x Hx). Qed.
-    Lemma own_set_bridge k w : (forall x, In x (key_labels (c_span st) k) -> own_label_ok (c_span st) x) ->
-      set_item g st name k w = set_item_with (bridge_lookup (c_span st)) st name k w.
-    Proof. intros H. unfold set_item. apply set_item_with_ext. intros x Hx. symmetry. apply bridge_agrees. exact (H x Hx). Qed.
-
-    Theorem own_label_get_exact x p :
-      own_label_ok (c_span st) x -> pos x (span_labels (c_span st)) = Some p ->
-      exists v, nth_error (s_data sr) p = Some v /\ get_item g st name (KLabel x) = Ret (RScalar v).
-    Proof.
-      intros Hl Hp. rewrite (own_get_bridge (KLabel x)) by (intros y [Hy|[]]; subst; exact Hl).
-      exact (label_get_exact _ st name sr (bridge_spec _ Hok) Hvar Hlen x p Hp).
-    Qed.
-    Theorem own_label_set_exact x p v :
-      own_label_ok (c_span st) x -> pos x (span_labels (c_span st)) = Some p ->
-      set_item g st name (KLabel x) (OScalar v) = (set_data st name sr (upd p v (s_data sr)), Ret tt).
-    Proof.
-      intros Hl Hp. rewrite (own_set_bridge (KLabel x)) by (intros y [Hy|[]]; subst; exact Hl).
-      exact (label_set_exact _ st name sr (bridge_spec _ Hok) Hvar Hlen x p v Hp).
-    Qed.
-    (* a label that is not in the span: KeyError, nothing read, nothing written — never another period *)
-    Theorem own_missing_label x w :
-      own_label_ok (c_span st) x -> pos x (span_labels (c_span st)) = None ->
-      get_item g st name (KLabel x) = Raise KeyError /\ set_item g st name (KLabel x) w = (st, Raise KeyError).
-    Proof.
-      intros Hl Hp. rewrite (own_get_bridge (KLabel x)) by (intros y [Hy|[]]; subst; exact Hl).
-      rewrite (own_set_bridge (KLabel x) w) by (intros y [Hy|[]]; subst; exact Hl). split.
-      - exact (missing_label_get _ st name sr (bridge_spec _ Hok) Hvar x Hp).
-      - exact (missing_label_set _ st name (bridge_spec _ Hok) x w Hp).
-    Qed.
-
-    Theorem own_slice_get_exact a b s pa pb :
-      (forall x, In x (key_labels (c_span st) (KSlice a b s)) -> own_label_ok (c_span st) x) ->
-      NoDup (span_labels (c_span st)) ->
-      start_pos (span_labels (c_span st)) a = Some pa -> stop_pos (span_labels (c_span st)) b = Some pb -> 0 < step_of s ->
-      let L := py_slice_positions (length (s_data sr)) (Some (Z.of_nat pa)) (Some (Z.of_nat pb + 1)) (step_of s) in
-      get_item g st name (KSlice a b s) = Ret (RArr (gather (s_data sr) L))
-      /\ (forall q, In q L <-> exists i : nat, Z.of_nat q = Z.of_nat pa + Z.of_nat i * step_of s /\ (q <= pb)%nat)
-      /\ ((pb < pa)%nat -> L = []).
-    Proof.
-      intros Hl ND Ha Hb Hs L. rewrite (own_get_bridge (KSlice a b s) Hl).
-      destruct (slice_get_exact _ st name sr (bridge_spec _ Hok) Hvar Hlen a b s pa pb ND Ha Hb Hs) as [H1 [_ [H3 [_ H5]]]].
-      split; [exact H1|]. split; [exact H3 | exact H5].
-    Qed.
-    Theorem own_slice_set_exact a b s pa pb w d' :
-      (forall x, In x (key_labels (c_span st) (KSlice a b s)) -> own_label_ok (c_span st) x) ->
-      NoDup (span_labels (c_span st)) ->
-      start_pos (span_labels (c_span st)) a = Some pa -> stop_pos (span_labels (c_span st)) b = Some pb -> 0 < step_of s ->
-      assign (s_data sr) (py_slice_positions (length (s_data sr)) (Some (Z.of_nat pa)) (Some (Z.of_nat pb + 1)) (step_of s)) w = Ret d' ->
-      set_item g st name (KSlice a b s) w = (set_data st name sr d', Ret tt).
-    Proof.
-      intros Hl ND Ha Hb Hs HA. rewrite (own_set_bridge (KSlice a b s) w Hl).
-      exact (slice_set_exact _ st name sr (bridge_spec _ Hok) Hvar Hlen a b s pa pb w d' ND Ha Hb Hs HA).
-    Qed.
-    Theorem own_missing_bound a b s w :
-      (forall x, In x (key_labels (c_span st) (KSlice a b s)) -> own_label_ok (c_span st) x) ->
-      NoDup (span_labels (c_span st)) ->
-      bound_given_or_nonempty st a -> bound_given_or_nonempty st b ->
-      (exists x, a = Some x /\ pos x (span_labels (c_span st)) = None)
-      \/ (start_pos (span_labels (c_span st)) a <> None /\ exists y, b = Some y /\ pos y (span_labels (c_span st)) = None) ->
-      get_item g st name (KSlice a b s) = Raise KeyError /\ set_item g st name (KSlice a b s) w = (st, Raise KeyError).
-    Proof.
-      intros Hl ND Ga Gb H. rewrite (own_get_bridge (KSlice a b s) Hl). rewrite (own_set_bridge (KSlice a b s) w Hl). split.
-      - exact (missing_bound_get _ st name sr (bridge_spec _ Hok) Hvar a b s ND Ga Gb H).
-      - exact (missing_bound_set _ st name (bridge_spec _ Hok) a b s w ND Ga Gb H).
-    Qed.
-  End Access.
+  (* every write path of the container itself, every read path *)
+  Theorem own_write_then_read_any_path st' w :
+    do_write (locate g (c_span st)) st name w = (st', Ret tt) ->
+    exists d' : list V,
+      length d' = length (span_labels (c_span st))
+      /\ get_attr st' name = Ret d' /\ get_key st' name = Ret d'
+      /\ (forall x p, pos x (span_labels (c_span st)) = Some p ->
+            exists v, nth_error d' p = Some v
+              /\ get_item_with (locate g (c_span st)) st' name (KLabel x) = Ret (RScalar v)
+              /\ get_pos st' name (Z.of_nat p) = Ret v
+              /\ get_pos st' name (Z.of_nat p - Z.of_nat (length d')) = Ret v)
+      /\ (NoDup (span_labels (c_span st)) -> span_labels (c_span st) <> [] ->
+            get_item_with (locate g (c_span st)) st' name (KSlice None None None) = Ret (RArr d'))
+      /\ same_frame st st' name.
+  Proof. exact (write_then_read_any_path _ st st' name sr w Hspec Hvar Hlen). Qed.
 End Own.
 
-(* the hypotheses are satisfiable on a NumPy-array span, also for a tuple label (span of length 3: no broadcasting) *)
+(* a tuple label on a NumPy-array span of length 2 (the case that used to alias period 0): simply absent *)
 Example own_arr_tuple_label_absent :
-  get_item (fun _ _ => Raise KeyError) (mkC (SArr [LInt 2; LInt 5; LInt 7]) 0 [("X"%string, mkSeries DFloat 1 [10; 11; 12])] [] false) "X" (KLabel (LPair 2 3))
+  get_item (fun _ _ => Raise KeyError) (mkC (SArr [LInt 2; LInt 5]) 0 [("X"%string, mkSeries DFloat 1 [10; 11])] [] false) "X" (KLabel (LPair 2 3))
   = Raise (A := rd Z) KeyError.
 Proof. vm_compute. reflexivity. Qed.
-Example own_arr_label_ok_long : arr_label_ok [LInt 2; LInt 5; LInt 7] (LPair 2 3).
-Proof. simpl. repeat split; try lia. intuition discriminate. Qed.
